@@ -150,10 +150,6 @@ func (w *c05World) c19Restart(o *c05Op) vu.Ev {
 		mode = "podsFirst"
 		sort.SliceStable(toks, func(i, j int) bool { return !toks[i].res && toks[j].res })
 	}
-	if only := vu.EnvInt("VERIF_C19_ORDER", 0); only == 1 { // development aid: deliver reservations first only
-		mode = "reservationsFirst"
-		sort.SliceStable(toks, func(i, j int) bool { return toks[i].res && !toks[j].res })
-	}
 	seenR, seenP := map[string]bool{}, map[string]bool{}
 	dups, updates, podFirst, resFirst := 0, 0, 0, 0
 	for _, tk := range toks {
@@ -163,7 +159,7 @@ func (w *c05World) c19Restart(o *c05Op) vu.Ev {
 			seen = seenR
 		}
 		if !seen[tk.id] {
-			kind = 0 // whatever comes first for an object is its add event
+			kind = 0     // whatever comes first for an object is its add event
 			if !tk.res { // a persisted assignment to a reservation the API server holds as usable: which of the two came first?
 				p := w.apiP[tk.id]
 				if r := w.apiR[p.Ra]; p.PNode != "" && !p.Dead && p.Ra != "" && r != nil && r.Node != "" && (r.Phase == "Available" || r.Phase == "Waiting") {
